@@ -82,13 +82,23 @@ func bookEntries(bk interface{}) map[string][]board.Move {
 func bookEntriesByWalk(bk engine.Book) map[string][]board.Move {
 	ret := map[string][]board.Move{}
 	todo := []string{fen.Initial}
+	// a reply table (SARGON's) also files positions after ANY first move of the opponent: those are tried as well
+	if p0, t0, _, _, err := fen.Decode(fen.Initial); err == nil {
+		for _, c := range p0.LegalMoves(t0) {
+			if next, ok := p0.Move(c); ok {
+				todo = append(todo, fen.Encode(next, t0.Opponent(), 0, 1))
+			}
+		}
+	}
+	visited := map[string]bool{}
 	for len(todo) > 0 && len(ret) < 100000 {
 		f := todo[0]
 		todo = todo[1:]
 		key := fen.Strip(f)
-		if _, seen := ret[key]; seen {
+		if visited[key] {
 			continue
 		}
+		visited[key] = true
 		ms, err := bk.Find(context.Background(), f)
 		if err != nil || len(ms) == 0 {
 			continue
